@@ -10,7 +10,9 @@
 (* destroyed again) or "gone" (the object was relocated away: destroyed, or abandoned after a byte copy).           *)
 EXTENDS SeqOps
 
-Algos == {"construct_at", "destroy_at", "destroy", "destroy_n", "uninitialized_copy", "uninitialized_copy_n",
+\* "construct_at_args": construct_at(p, 1, 2) on a type with T(int, int) AND T(std::initializer_list<int>): the standard
+\* algorithm direct-initialises with parentheses (value 12), list-initialisation would pick the other constructor
+Algos == {"construct_at", "construct_at_args", "destroy_at", "destroy", "destroy_n", "uninitialized_copy", "uninitialized_copy_n",
           "uninitialized_move", "uninitialized_move_n", "uninitialized_default_construct", "uninitialized_default_construct_n",
           "uninitialized_value_construct", "uninitialized_value_construct_n", "uninitialized_relocate",
           "uninitialized_relocate_n", "relocate_at"}
@@ -57,7 +59,8 @@ MemExpect(lb) ==
       Pos(j) == IF lb.sit = "rev" THEN n + 1 - j ELSE j
       Res(src, dst, ret, ret2) == [src |-> src, dst |-> dst, ret |-> ret, ret2 |-> ret2, exc |-> thr]
   IN
-  CASE lb.a = "construct_at" ->
+  CASE lb.a = "construct_at_args" -> Res(src0, [dst0 EXCEPT ![1] = Live(12)], 0, 0)
+    [] lb.a = "construct_at" ->
          \* constructs a copy of source element 1 at destination slot 1 (n >= 1)
          IF thr THEN Res(src0, dst0, 0, 0) ELSE Res(src0, [dst0 EXCEPT ![1] = Live(1)], 0, 0)
     [] lb.a = "destroy_at" -> Res([src0 EXCEPT ![1] = Gone], dst0, 0, 0)
@@ -85,6 +88,7 @@ MemExpect(lb) ==
 MemLabels(MaxN) ==
   {lb \in {MLbl(a, n, sit, dit, cat, k) : a \in Algos, n \in 0..MaxN, sit \in SrcKinds, dit \in DstKinds, cat \in Cats, k \in 0..MaxN} :
      /\ (lb.a \in {"construct_at", "destroy_at", "relocate_at"} => lb.n = 1 /\ lb.sit = "ptr" /\ lb.dit = "ptr" /\ lb.k <= 1)
+     /\ (lb.a = "construct_at_args" => lb.n = 1 /\ lb.sit = "ptr" /\ lb.dit = "ptr" /\ lb.k = 0 /\ lb.cat = "TC")
      /\ (lb.a \in {"destroy", "destroy_n"} => lb.dit = "ptr" /\ lb.k = 0 /\ lb.sit # "move")
      /\ (lb.a \in CtorAlgos => lb.sit = "ptr")
      /\ (lb.a \in MoveAlgos \cup RelocAlgos => lb.sit # "move")
